@@ -12,10 +12,15 @@
    FAILED_MESSAGE, payload naming the module and embedding the header as last stamped - is written as one whole
    frame to exactly the FAILED_MESSAGE subscribers that pass the destination filter (all ready), nothing else
    is written, the recipient's drop count goes up by one and the loop continues with the same header.
-   The failing-send case on frames is decided against the implementation by the correspondence and the
-   spec oracle (check_C14). *)
+   End to end for the failing-send case (C14_failing_send, every reachable state, error logging off, the
+   remaining subscribers of CLIENT_CLOSED and FAILED_MESSAGE writable): the recipient's counter is bumped, nothing
+   reaches it, it is removed; one whole CLIENT_CLOSED frame describing it goes to each remaining eligible
+   subscriber of CLIENT_CLOSED, then one whole FAILED_MESSAGE frame naming its module id and embedding the header
+   as stamped goes to each remaining eligible subscriber of FAILED_MESSAGE - and nothing else is written; the
+   delivery loop continues with the stamped header.  Cases with several simultaneous failures are decided
+   against the implementation by the correspondence and the spec oracle (check_C14). *)
 From Coq Require Import ZArith List Bool Lia.
-From Mgr Require Import Gen.MgrDefs Model.Manager Proofs.RegInv Proofs.RegTop Proofs.StepInv Proofs.Exact Proofs.ExactTop.
+From Mgr Require Import Gen.MgrDefs Model.Manager Proofs.RegInv Proofs.RegTop Proofs.StepInv Proofs.Exact Proofs.ExactTop Proofs.DepartExact Proofs.FailExact.
 Import ListNotations.
 Open Scope Z_scope.
 
@@ -67,6 +72,27 @@ Theorem C14_notice_delivered : forall cfg fuel es u s (k : nat) p hh c,
     out s' = out s ++ frames fail_hdr (PFailed (m_mod_id (find_mod c (mods s))) hh) s (snapshot s MT_FAILED_MESSAGE) /\
     m_drops (find_mod c (mods s')) = m_drops (find_mod c (mods s)) + 1.
 Proof. exact notice_exact_reachable. Qed.
+
+Theorem C14_failing_send : forall cfg fuel es u s (k : nat) p hh c,
+  run cfg fuel es = Ok u s -> 40 < loglevel cfg ->
+  zmem (h_type hh) no_notice_types = false ->
+  m_reg (find_mod c (mods s)) = true -> zmem c (wl s) = true ->
+  dest_filter (h_dst_mod hh) (m_mod_id (find_mod c (mods s))) (m_logger (find_mod c (mods s))) = true ->
+  (exists n, flookup c (faults s) = Some n /\ n <= 0) ->
+  (forall f, f <> c -> (In f (snapshot s MT_CLIENT_CLOSED) \/ In f (snapshot s MT_FAILED_MESSAGE)) ->
+             zmem f (wl s) = true /\ flookup f (faults s) = None) ->
+  let hh' := set_count hh (cnt s c + 1) in
+  exists s1 s',
+    deliver_with cfg (forward cfg (Datatypes.S k)) p hh c s = Ok hh' s' /\
+    out s1 = out s ++ frames cc_hdr (client_payload true (find_mod c (mods s))) s (remaining s c MT_CLIENT_CLOSED) /\
+    out s' = out s1 ++ frames fail_hdr (PFailed (m_mod_id (find_mod c (mods s))) hh') s1 (remaining s c MT_FAILED_MESSAGE) /\
+    (forall dm f, eligible dm s1 f = eligible dm s f) /\
+    m_reg (find_mod c (mods s')) = false /\ m_closed (find_mod c (mods s')) = true.
+Proof. intros cfg fuel es u s k p hh c. exact (failing_send_exact_reachable cfg fuel es u s k p hh c). Qed.
+
+(* `remaining s c t`: the subscribers of t (or of all types) other than c *)
+Theorem C14_remaining_spec : forall s c t f, In f (remaining s c t) <-> f <> c /\ In f (snapshot s t).
+Proof. exact remaining_In. Qed.
 
 (* the rest of the snapshot is visited whatever happened to one recipient *)
 Theorem C14_others_still_served : forall cfg rec p hh c r,
